@@ -124,7 +124,7 @@ def run_suite(ctx, pid, which, n_quick, n_thorough):
 
 
 def run(ctx):
-    return run_suite(ctx, 'C08', ('c08',), 350, 3000)
+    return run_suite(ctx, 'C08', ('c08',), 350, 40000)
 
 
 def search(ctx, res):
